@@ -1201,8 +1201,5 @@ Token *preprocess(Token *tok) {
     error_tok(cond_incl->tok, "unterminated conditional directive");
   convert_pp_tokens(tok);
   join_adjacent_string_literals(tok);
-
-  for (Token *t = tok; t; t = t->next)
-    t->line_no += t->line_delta;
   return tok;
 }
